@@ -2,6 +2,7 @@ from __future__ import annotations
 
 import abc
 import math
+import sys
 import random
 from itertools import accumulate
 from typing import TypeVar
@@ -19,8 +20,12 @@ def float_between(min: float, max: float, numerator: float, denominator: float =
     if math.isfinite(width):
         v = numerator * width / denominator + min
     else:
+        # too wide for a float (or an infinite bound): interpolate between the ends, an infinite end standing for the
+        # largest finite float (0 * inf would be nan)
+        lo = -sys.float_info.max if min == -math.inf else min
+        hi = sys.float_info.max if max == math.inf else max
         fraction = numerator / denominator
-        v = (1.0 - fraction) * min + fraction * max
+        v = (1.0 - fraction) * lo + fraction * hi
     if v > max:
         v = float(max)
         if v > max:  # an int bound beyond 2**53 whose nearest float lies above it
